@@ -74,7 +74,8 @@ def build_coq(timeout=3000):
                 return False, out
         # -k: a file of another property that does not compile must not block this property's files;
         # whether this property's theorems hold is decided by compiling its Props file afterwards
-        rc, out = sh(f"timeout {timeout} make -k -j{NCPU}", cwd=COQ, timeout=timeout + 60)
+        # per-file limit: one slow file of one property must not hold the build lock for everybody
+        rc, out = sh(f"timeout {timeout} make -k -j{NCPU} COQC='timeout 600 coqc'", cwd=COQ, timeout=timeout + 60)
         return True, out[-4000:]
 
 
